@@ -377,7 +377,7 @@ def _paint_transform(p):
     return None
 
 
-def colr_picture(font, glyph_name):
+def colr_picture(font, glyph_name, require_opaque_palette=True):
     """COLR (v1 or v0) -> picture, by the COLR rendering rules: layers bottom-up; PaintGlyph
     clips its paint to the outline; a transform paint maps its whole subtree (outline and
     paint geometry); PaintComposite(SRC_IN, X, solid black alpha) = group alpha."""
@@ -409,7 +409,7 @@ def colr_picture(font, glyph_name):
     def fill(p, T):
         if p.Format == F.PaintSolid:
             rgb, a, idx = color(p.PaletteIndex, p.Alpha)
-            if idx is not None and cpal[idx].alpha != 255:
+            if require_opaque_palette and idx is not None and cpal[idx].alpha != 255:
                 problems.append(f"COLRv1 palette entry {idx} is not opaque")
             return ("solid", rgb, a, idx)
         if p.Format in (F.PaintLinearGradient, F.PaintRadialGradient):
